@@ -341,6 +341,14 @@ func (m *Map[K, V]) decodeInto(target any) error {
 			continue
 		}
 
+		// Fields promoted from an embedded struct that is the inline field are
+		// left to that struct: it is offered every leftover key below. Filling
+		// them here as well would fill them twice, from two different keys
+		// when a key and one of its aliases are both present.
+		if inlineField.Anonymous && len(field.Index) > 1 && field.Index[0] == inlineField.Index[0] {
+			continue
+		}
+
 		// No worries if the tag is not there - apply defaults.
 		tag, _ := field.Tag.Lookup("yaml")
 
